@@ -125,6 +125,13 @@ def main(pid, argv):
         base = b"# doc with `backtick` and ``two``\ninterface a.b\n# m `x`\nmethod M(a: int) -> (b: string)\n"
         texts += [base, base.replace(b"\n", b"\r\n"), base + b"\n\n\n", b"interface a.b\r\nmethod M() -> ()\r\n"]
         idls += [None] * 4
+        # doc comments that mention the generator's own markers and import triggers
+        docs = [b"# returns json.RawMessage via fmt.Sprintf\ninterface a.b\nmethod M() -> ()\n",
+                b"# @IMPORTS@\ninterface a.b\nmethod M() -> ()\n",
+                b"interface a.b\n# see context.Context and fmt.Sprintf(\"%v\")\nmethod M(a: int) -> ()\n# json.RawMessage\nerror E\n",
+                b"interface a.b\n# @IMPORTS@ json.RawMessage\ntype T (a: string)\nmethod M(t: T) -> ()\n"]
+        texts += docs
+        idls += [None] * len(docs)
         texts += G.repo_descriptions()[:1]
         idls += [None]
     d = tempfile.mkdtemp(prefix="vgen")
